@@ -228,7 +228,10 @@ impl<M: Math> AdaptStrategy<M> for ExternalTransformAdaptation {
                 )?;
             }
             self.step_size.update_estimator_early();
-            self.step_size.update_stepsize(rng, hamiltonian, false);
+            // If the final step size window is empty this is the last tuning draw:
+            // install the averaged step size for the first sampling draw.
+            let is_last = draw + 1 == self.num_tune;
+            self.step_size.update_stepsize(rng, hamiltonian, is_last);
             return Ok(());
         }
 
